@@ -230,6 +230,7 @@ func init() {
 		ruleIndexLE(prog, rep, "jp")
 		ruleRoundGuard(prog, rep)
 		ruleTruthMatrix(prog, rep) // "filter keeping the elements whose script is true"
+		ruleOpArity(prog, rep)
 		ruleFilterRoot(prog, rep, func(fn string) bool { return strings.HasPrefix(fn, "Expr.Get") || strings.HasPrefix(fn, "Expr.First") })
 		ruleTwinClauses(prog, rep, 10, func(fd *ast.FuncDecl) bool { return twinScope(fd) == "C05" })
 		rulePushPair(prog, rep, func(fd *ast.FuncDecl) bool { return twinScope(fd) == "C05" }, 5)
